@@ -101,6 +101,9 @@ class _BinSink(object):
         self.world = world
         self.name = name
 
+    def close(self):
+        pass
+
     def write(self, data):
         data = bytes(data)
         self.world.std_write(self.name, 'b', data)
@@ -143,6 +146,9 @@ class _TextSink(object):
     def flush(self):
         pass
 
+    def close(self):
+        pass
+
     def fileno(self):
         raise io.UnsupportedOperation('fileno')
 
@@ -168,6 +174,9 @@ class _BinSource(object):
     def readline(self, n=-1):
         return self.bio.readline(n)
 
+    def close(self):
+        pass
+
     def readinto(self, b):
         return self.bio.readinto(b)
 
@@ -185,6 +194,9 @@ class _TextSource(object):
     encoding = 'utf-8'
     errors = 'strict'
     closed = False
+
+    def close(self):
+        pass
 
     def __init__(self, world, data):
         self.buffer = _BinSource(world, data)
@@ -379,6 +391,7 @@ class World(object):
         self.mods = []                    # modifying operations: (seq, op, path as given, realpath-rel or None)
         self.outside = []                 # accesses outside the world root
         self.devnull = os.open(os.devnull, os.O_WRONLY)
+        self.pid = os.getpid()            # processes the command forks itself are outside the simulation: plain pass-through
 
     # ---------------------------------------------------------------- paths
     def rel(self, path):
@@ -436,6 +449,8 @@ class World(object):
         self.log(ev)
 
     def std_write(self, stream, typ, payload):
+        if os.getpid() != self.pid:
+            return
         if stream == 'stdout':
             f = self.event('stdout', None, typ=typ, n_bytes=len(payload))
             if f is not None and f['kind'] == 'EPIPE':
@@ -470,7 +485,7 @@ class World(object):
         }
 
         def sim_open(file, mode='r', *args, **kwargs):
-            if isinstance(file, int):
+            if isinstance(file, int) or os.getpid() != w.pid:
                 return real_open(file, mode, *args, **kwargs)
             rp = w.rel(file)
             m = mode if isinstance(mode, str) else 'r'
@@ -511,7 +526,7 @@ class World(object):
             return names
 
         def sim_scandir(path='.'):
-            if isinstance(path, int) or w.rel(path) is None:
+            if isinstance(path, int) or os.getpid() != w.pid or w.rel(path) is None:
                 return real_scandir(path)
             f = w.event('scandir', path)
             if f is not None:
@@ -522,7 +537,7 @@ class World(object):
             return _ScandirResult([entries[n] for n in order])
 
         def sim_listdir(path='.'):
-            if isinstance(path, int) or w.rel(path) is None:
+            if isinstance(path, int) or os.getpid() != w.pid or w.rel(path) is None:
                 return real_listdir(path)
             f = w.event('scandir', path)
             if f is not None:
@@ -556,6 +571,8 @@ class World(object):
             fault_cls = {'rename': 'os_rename', 'replace': 'os_rename', 'remove': 'os_remove', 'unlink': 'os_remove'}.get(name)
 
             def wrapper(*a, **k):
+                if os.getpid() != w.pid:
+                    return real(*a, **k)
                 inside = [x for x in a[:nargs] if not isinstance(x, int) and w.rel(x) is not None]
                 f = None
                 if fault_cls and inside:
@@ -588,6 +605,8 @@ class World(object):
         self._saved['os.open'] = real_os_open
 
         def sim_os_open(path, flags, *a, **k):
+            if os.getpid() != w.pid:
+                return real_os_open(path, flags, *a, **k)
             fd = real_os_open(path, flags, *a, **k)
             if flags & (os.O_WRONLY | os.O_RDWR | os.O_CREAT | os.O_TRUNC | os.O_APPEND):
                 # logged once it has succeeded: a failed O_EXCL probe of an existing name modifies nothing
@@ -615,6 +634,27 @@ class World(object):
             os.close(self.devnull)
         except OSError:
             pass
+
+
+def reap_descendants():
+    """Processes the command started itself (a multiprocessing pool ...) must not outlive the execution."""
+    try:
+        import multiprocessing
+        for p in multiprocessing.active_children():
+            try:
+                p.terminate()
+                p.join(2)
+            except Exception:
+                pass
+    except Exception:
+        pass
+    while True:
+        try:
+            pid, _ = os.waitpid(-1, os.WNOHANG)
+        except ChildProcessError:
+            break
+        if pid == 0:
+            break
 
 
 def execute(entry, root, cwd, argv, env, stdin_bytes, listing_seed, faults=None, sink=None, real_crash=False):
@@ -664,6 +704,7 @@ def execute(entry, root, cwd, argv, env, stdin_bytes, listing_seed, faults=None,
             exc = type(e).__name__
         finally:
             w.uninstall()
+            reap_descendants()
     finally:
         simclock.CURRENT['clock'] = None
         sys.argv = saved['argv']
